@@ -16,12 +16,30 @@ type sliceCtx struct {
 	seen  map[ssa.Value]bool
 	calls []*ssa.Call // context stack
 	depth int
+	// parts of unbound struct parameters the slice depends on (field paths); a parameter that is needed as a
+	// whole is simply in `seen`
+	paramPaths map[*ssa.Parameter][][]int
+	paramWhole map[*ssa.Parameter]bool
 }
 
 func backSlice(v ssa.Value) map[ssa.Value]bool {
 	sc := &sliceCtx{seen: map[ssa.Value]bool{}}
 	sc.visit(v, nil)
 	return sc.seen
+}
+
+// backSlicePath: the slice of the part `path` of v; also reports which parts of unbound struct parameters
+// it needs.
+func backSlicePath(v ssa.Value, path []int) (map[ssa.Value]bool, map[*ssa.Parameter][][]int) {
+	sc := &sliceCtx{seen: map[ssa.Value]bool{}}
+	sc.visitValuePath(v, path, nil, 0)
+	for p := range sc.paramWhole {
+		if sc.paramPaths == nil {
+			sc.paramPaths = map[*ssa.Parameter][][]int{}
+		}
+		sc.paramPaths[p] = append(sc.paramPaths[p], nil)
+	}
+	return sc.seen, sc.paramPaths
 }
 
 func (sc *sliceCtx) visit(v ssa.Value, stack []*ssa.Call) {
@@ -32,6 +50,12 @@ func (sc *sliceCtx) visit(v ssa.Value, stack []*ssa.Call) {
 	switch x := v.(type) {
 	case *ssa.Parameter:
 		// bind to the argument of the call on top of the context stack
+		if len(stack) == 0 {
+			if sc.paramWhole == nil {
+				sc.paramWhole = map[*ssa.Parameter]bool{}
+			}
+			sc.paramWhole[x] = true
+		}
 		if n := len(stack); n > 0 {
 			call := stack[n-1]
 			if cal := call.Common().StaticCallee(); cal != nil {
@@ -89,15 +113,20 @@ func (sc *sliceCtx) visitCallee(v ssa.Value, stack []*ssa.Call) {
 	sc.visit(v, stack)
 }
 
-// visitAddr: everything stored through an address rooted at a local allocation (or its fields / elements).
+// visitAddr: everything stored through an address rooted at a local allocation.  The walk is field
+// sensitive: a load of `x.f.g` depends on the stores into x.f.g, into x.f and into x as a whole (and then on
+// the f.g part of the stored value), not on the stores into the other fields of x.
 func (sc *sliceCtx) visitAddr(addr ssa.Value, stack []*ssa.Call) {
 	root := addr
+	var path []int // field indices from the root to the loaded location (-1: some element)
 	for {
 		switch a := root.(type) {
 		case *ssa.FieldAddr:
+			path = append([]int{a.Field}, path...)
 			root = a.X
 			continue
 		case *ssa.IndexAddr:
+			path = append([]int{-1}, path...)
 			root = a.X
 			continue
 		}
@@ -108,31 +137,124 @@ func (sc *sliceCtx) visitAddr(addr ssa.Value, stack []*ssa.Call) {
 		sc.visit(root, stack)
 		return
 	}
-	var walk func(a ssa.Value)
-	seenA := map[ssa.Value]bool{}
-	walk = func(a ssa.Value) {
-		if seenA[a] {
-			return
-		}
+	sc.visitAllocPath(al, path, stack, map[ssa.Value]bool{}, 0)
+}
+
+// visitAllocPath walks the stores below address `a` that can define the location a.path.
+func (sc *sliceCtx) visitAllocPath(a ssa.Value, path []int, stack []*ssa.Call, seenA map[ssa.Value]bool, depth int) {
+	if seenA[a] && len(path) == 0 {
+		return
+	}
+	if len(path) == 0 {
 		seenA[a] = true
-		refs := a.Referrers()
-		if refs == nil {
-			return
-		}
-		for _, r := range *refs {
-			switch u := r.(type) {
-			case *ssa.Store:
-				if u.Addr == a {
-					sc.visit(u.Val, stack)
-				}
-			case *ssa.FieldAddr:
-				walk(u)
-			case *ssa.IndexAddr:
-				walk(u)
+	}
+	refs := a.Referrers()
+	if refs == nil || depth > 12 {
+		return
+	}
+	for _, r := range *refs {
+		switch u := r.(type) {
+		case *ssa.Store:
+			if u.Addr == a {
+				sc.visitValuePath(u.Val, path, stack, depth+1)
+			}
+		case *ssa.FieldAddr:
+			if u.X != a {
+				continue
+			}
+			if len(path) == 0 {
+				sc.visitAllocPath(u, nil, stack, seenA, depth+1)
+			} else if path[0] == u.Field {
+				sc.visitAllocPath(u, path[1:], stack, seenA, depth+1)
+			}
+		case *ssa.IndexAddr:
+			if u.X != a {
+				continue
+			}
+			if len(path) == 0 {
+				sc.visitAllocPath(u, nil, stack, seenA, depth+1)
+			} else if path[0] == -1 {
+				sc.visitAllocPath(u, path[1:], stack, seenA, depth+1)
 			}
 		}
 	}
-	walk(al)
+}
+
+// visitValuePath: the part `path` of the (struct) value v.
+func (sc *sliceCtx) visitValuePath(v ssa.Value, path []int, stack []*ssa.Call, depth int) {
+	if len(path) == 0 || depth > 12 {
+		sc.visit(v, stack)
+		return
+	}
+	switch x := v.(type) {
+	case *ssa.UnOp:
+		if x.Op == token.MUL {
+			// a copy of another location: continue below that location with the same path
+			root := x.X
+			var pre []int
+			for {
+				switch a := root.(type) {
+				case *ssa.FieldAddr:
+					pre = append([]int{a.Field}, pre...)
+					root = a.X
+					continue
+				case *ssa.IndexAddr:
+					pre = append([]int{-1}, pre...)
+					root = a.X
+					continue
+				}
+				break
+			}
+			if al, ok := root.(*ssa.Alloc); ok {
+				sc.seen[v] = true
+				sc.visitAllocPath(al, append(pre, path...), stack, map[ssa.Value]bool{}, depth+1)
+				return
+			}
+		}
+	case *ssa.Parameter:
+		if n := len(stack); n > 0 {
+			call := stack[n-1]
+			if cal := call.Common().StaticCallee(); cal != nil {
+				for i, p := range cal.Params {
+					if p == x && i < len(call.Common().Args) {
+						sc.seen[v] = true
+						sc.visitValuePath(call.Common().Args[i], path, stack[:n-1], depth+1)
+						return
+					}
+				}
+			}
+		}
+		// unbound parameter: remember which part of it is needed (for callers of sliceUp)
+		sc.seen[v] = true
+		if sc.paramPaths == nil {
+			sc.paramPaths = map[*ssa.Parameter][][]int{}
+		}
+		sc.paramPaths[x] = append(sc.paramPaths[x], append([]int(nil), path...))
+		return
+	case *ssa.Phi:
+		sc.seen[v] = true
+		for _, e := range x.Edges {
+			sc.visitValuePath(e, path, stack, depth+1)
+		}
+		return
+	case *ssa.Field:
+		sc.seen[v] = true
+		sc.visitValuePath(x.X, append([]int{x.Field}, path...), stack, depth+1)
+		return
+	case *ssa.Call:
+		if cal := x.Common().StaticCallee(); cal != nil && inModule(cal) && len(stack) < 4 && cal.Blocks != nil && cal.Signature.Results().Len() == 1 {
+			sc.seen[v] = true
+			for _, b := range cal.Blocks {
+				for _, ins := range b.Instrs {
+					if r, ok := ins.(*ssa.Return); ok && len(r.Results) == 1 {
+						sc.visitValuePath(r.Results[0], path, append(append([]*ssa.Call{}, stack...), x), depth+1)
+					}
+				}
+			}
+			return
+		}
+	}
+	sc.visit(v, stack)
 }
 
 func sliceHasCall(sl map[ssa.Value]bool, pred func(cal *ssa.Function, call *ssa.Call) bool) bool {
@@ -166,13 +288,24 @@ func controlConds(b *ssa.BasicBlock) []ssa.Value {
 		if !ok {
 			continue
 		}
-		s0 := d.Succs[0] == b || d.Succs[0].Dominates(b)
-		s1 := d.Succs[1] == b || d.Succs[1].Dominates(b)
+		s0 := branchLeadsTo(d, 0, b)
+		s1 := branchLeadsTo(d, 1, b)
 		if s0 != s1 {
 			out = append(out, ifi.Cond)
 		}
 	}
 	return out
+}
+
+// branchLeadsTo: b is reached through successor i of the branch block d, i.e. that successor is b or dominates
+// b and is itself entered from d in forward direction (a back edge to a loop header that dominates both d
+// and b does not count).
+func branchLeadsTo(d *ssa.BasicBlock, i int, b *ssa.BasicBlock) bool {
+	s := d.Succs[i]
+	if s == b {
+		return len(s.Preds) == 1 || d.Dominates(s)
+	}
+	return s.Dominates(b) && d.Dominates(s)
 }
 
 // findCalls returns the call instructions in f whose static callee satisfies pred.
